@@ -285,6 +285,72 @@ func runPure(r *hx.Run) {
 				map[string]string{"fn": "CopyBytes", "what": "value-or-aliasing"})
 		}
 	}
+	// utils.SortSlice: sort.StringSlice order or its reverse, in place; unknown direction panics
+	for n := 0; n < 200; n++ {
+		k := r.Rng.Intn(6)
+		keys := make([]string, k)
+		toks := make([]string, k)
+		for i := range keys {
+			keys[i] = string(hx.Pick(r.Rng, probes))
+			toks[i] = hx.Hex([]byte(keys[i]))
+		}
+		dirTok, dirs := "def", []kvstore.IterDirection(nil)
+		switch r.Rng.Intn(8) {
+		case 0, 1, 2:
+			dirTok, dirs = "0", []kvstore.IterDirection{kvstore.IterDirectionForward}
+		case 3, 4, 5:
+			dirTok, dirs = "1", []kvstore.IterDirection{kvstore.IterDirectionBackward}
+		case 6:
+			dirTok, dirs = "9", []kvstore.IterDirection{9}
+		}
+		want := append([]string{}, keys...)
+		sort.Strings(want)
+		if dirTok == "1" {
+			for i, j := 0, len(want)-1; i < j; i, j = i+1, j-1 {
+				want[i], want[j] = want[j], want[i]
+			}
+		}
+		ans := "keys"
+		if p := hx.Safely(func() {
+			for _, x := range utils.SortSlice(keys, dirs...) {
+				ans += " " + hx.Hex([]byte(x))
+			}
+		}); p != "" {
+			ans = "panic"
+		}
+		wantAns := "keys"
+		for _, x := range want {
+			wantAns += " " + hx.Hex([]byte(x))
+		}
+		if dirTok == "9" {
+			wantAns = "panic"
+		}
+		r.Line(strings.TrimSpace("fn sort "+dirTok+" "+strings.Join(toks, " ")), ans)
+		r.Count("fn:sort")
+		if ans != wantAns {
+			r.Fail("pure-helpers", fmt.Sprintf("SortSlice(%v, %s) = %s, want %s", toks, dirTok, ans, wantAns), map[string]string{"fn": "SortSlice", "what": "value"})
+		}
+	}
+	// byteutils.ReadAvailableBytesToBuffer with offsets inside the slices
+	for n := 0; n < 200; n++ {
+		target := append([]byte{}, hx.Pick(r.Rng, allStrings(4))...)
+		source := hx.Pick(r.Rng, allStrings(4))
+		tOff := r.Rng.Intn(len(target) + 1)
+		sLen := r.Rng.Intn(len(source) + 1)
+		sOff := r.Rng.Intn(sLen + 1)
+		orig := append([]byte{}, target...)
+		srcCopy := append([]byte{}, source...)
+		got := byteutils.ReadAvailableBytesToBuffer(target, tOff, srcCopy, sOff, sLen)
+		r.Line(fmt.Sprintf("fn readavail %s %d %s %d %d", hx.Hex(orig), tOff, hx.Hex(source), sOff, sLen), fmt.Sprintf("bytes %s %d", hx.Hex(target), got))
+		r.Count("fn:readavail")
+		wantN := min(sLen-sOff, len(orig)-tOff)
+		wantT := append([]byte{}, orig...)
+		copy(wantT[tOff:], source[sOff:sOff+wantN])
+		if got != wantN || !bytes.Equal(target, wantT) || !bytes.Equal(srcCopy, source) {
+			r.Fail("pure-helpers", fmt.Sprintf("ReadAvailableBytesToBuffer(%s, %d, %s, %d, %d) = %d, target %s", hx.Hex(orig), tOff, hx.Hex(source), sOff, sLen, got, hx.Hex(target)),
+				map[string]string{"fn": "ReadAvailableBytesToBuffer", "what": "value"})
+		}
+	}
 	// the constants of debug.go: command bits in declaration order with their names, AllCommands, ShutdownCommand
 	{
 		cmds := []debug.Command{debug.IterateCommand, debug.IterateKeysCommand, debug.ClearCommand, debug.GetCommand, debug.SetCommand,
